@@ -109,8 +109,12 @@ func genC15(cs *CaseSet, rng *Rng, tier string, dir string) {
 		env.StartDrain()
 		admin, _ := env.NewClient("~admin~", all, "10.15.0.1:1")
 		// universe: logins that are legal file names (incl. spaces, dots, high bytes), passwords <= 72 bytes
-		logins := [][]byte{[]byte("guest"), []byte("alice"), []byte("bob smith"), []byte("c.d"), {0xe9, 0x80, 'x'}}
-		logins = logins[:3+rng.Intn(3)]
+		// (a leading dot, a ".yaml" ending, a name that differs from another only in case, a leading dash)
+		pool := [][]byte{[]byte("alice"), []byte("bob smith"), []byte("c.d"), {0xe9, 0x80, 'x'}, []byte(".ops"), []byte("x.yaml"), []byte("Alice"), []byte("-n")}
+		logins := [][]byte{[]byte("guest")}
+		for _, i := range rng.Perm(len(pool))[:2+rng.Intn(3)] {
+			logins = append(logins, pool[i])
+		}
 		pws := [][]byte{{}, []byte("pw1"), rng.Bytes(1 + rng.Intn(20)), {0}}
 		var ops []Op
 		var obs [][][]byte
